@@ -119,6 +119,55 @@ def index_kernel(fi: FuncInfo, target: str, b: int, decide, extra_attrs=None) ->
     return table
 
 
+def modulator_forward_evaluated(ci: ClassInfo, fi: FuncInfo, bs: Sequence[int], via_map: bool):
+    """The whole forward of a memoryless table modulator evaluated (own arithmetic) on bit blocks of rank 1, 2 and 3 with
+    a table of distinct stand-in points (and, for the PSK modulator, a fixed non-trivial label permutation): symbol t of
+    every row must be the point selected by the bits t*b .. t*b+b-1 of THAT row read MSB first.
+    Returns (status, detail) or (None, reason)."""
+    words = 0
+    for b in bs:
+        M = 2**b
+        pts = [100.0 + i for i in range(M)]
+        perm = [(i ^ (i >> 1)) for i in range(M)]  # some permutation of the labels (Gray)
+        attrs = {"self._bits_per_symbol": b, "self.bits_per_symbol": b, "self.order": M, "self.constellation": pts, "self.bit_to_symbol_map": perm, "self.normalize": False, "self.gray_coding": True}
+
+        def stream(seed, n_):
+            out, v = [], seed
+            for _ in range(n_):
+                v = (v * 1103515245 + 12345) % (2**31)
+                out.append(float((v >> 16) & 1))
+            return out
+
+        L = 3 * b
+        blocks = [stream(7 + b, L), [stream(11, L), stream(13, L)], [[stream(17, L), stream(19, L)], [stream(23, L), stream(29, L)], [stream(31, L), stream(37, L)]]]
+        if b == 1:
+            blocks = blocks[1:]  # a rank-1 block of single bits is also a list of indices
+        for x in blocks:
+            try:
+                run_fragment(fi.body, {"x": x, "args": [], "kwargs": {}}, dict(attrs), materialise=True, max_steps=400000)
+                return None, "no value returned"
+            except FragReturn as ret:
+                got = ret.value
+            except (Unfoldable, FragRaise, TypeError, IndexError, ValueError) as exc:
+                return None, f"{b} bit(s): {exc}"
+
+            def want_of(t):
+                if isinstance(t[0], list):
+                    return [want_of(r) for r in t]
+                out = []
+                for g in range(len(t) // b):
+                    lab = int("".join(str(int(v)) for v in t[g * b : (g + 1) * b]), 2)
+                    out.append(pts[perm[lab]] if via_map else pts[lab])
+                return out
+
+            want = want_of(x)
+            if got != want:
+                rank = 1 + (isinstance(x[0], list)) + (isinstance(x[0], list) and isinstance(x[0][0], list))
+                return VIOLATION, f"{b} bit(s) per symbol, bit block of rank {rank}: forward gives {str(got)[:120]}, the points selected row by row (bits read MSB first{', through the label map' if via_map else ''}) are {str(want)[:120]} (stand-in points 100 + index): symbols are not formed from consecutive bits of one row / not in MSB-first order"
+            words += 1
+    return OK, f"{words} bit blocks (rank 1, 2 and 3; {', '.join(str(b) for b in bs)} bit(s) per symbol): every symbol is the point selected by the consecutive bits of its own row, MSB first"
+
+
 def rule_label(repo: Repo, rep: Report) -> int:
     n = 0
     # ---- modulators ------------------------------------------------------------------------------
@@ -151,6 +200,13 @@ def rule_label(repo: Repo, rep: Report) -> int:
                 return False
             return None
 
+        if cname in ("PSKModulator", "QPSKModulator"):
+            est_, ed_ = modulator_forward_evaluated(ci, fi, bs, via_map=(idiom == "M"))
+            if est_ is not None:
+                rep.add("LABEL", fi, f"{cname}: forward evaluated on bit blocks of rank 1, 2, 3 with stand-in points", est_, ed_, node=fi.node)
+                n += 1 + len(bs)
+                n += psk_map_rule(repo, rep, ci) if idiom == "M" else natural_table_rule(repo, rep, ci, cname)
+                continue
         # which name indexes the point table?
         subs = [s for s in ast.walk(fi.node) if isinstance(s, ast.Subscript) and attr_chain(s.value) in ("self.constellation", "self.qpsk", "self.qpsk_rotated", "self.bit_to_symbol_map") and isinstance(s.ctx, ast.Load)]
         roots = set()
@@ -1027,6 +1083,37 @@ def sign_rail(rep: Report, mod: FuncInfo, dem: FuncInfo, amp_name: str, dec_name
 # COUNT
 # ---------------------------------------------------------------------------
 
+def modulator_count_evaluated(fi: FuncInfo, bs: Sequence[int]):
+    """forward of a memoryless table modulator evaluated on bit blocks whose length is / is not a multiple of the group
+    size: the number of symbols is bits / b along the last axis, and any other length is rejected (no value returned)."""
+    cases = 0
+    for b in bs:
+        M = 2**b
+        attrs = {"self._bits_per_symbol": b, "self.bits_per_symbol": b, "self.order": M, "self.constellation": [100.0 + i for i in range(M)], "self.bit_to_symbol_map": list(range(M)), "self.normalize": False, "self.gray_coding": False}
+        for g in (1, 2, 5):
+            for extra in ((0, 1) if b > 1 else (0,)) + ((b - 1,) if b > 2 else ()):
+                L = g * b + extra
+                x = [[float((i * 7 + r) % 2) for i in range(L)] for r in range(2)]
+                try:
+                    run_fragment(fi.body, {"x": x, "args": [], "kwargs": {}}, dict(attrs), materialise=True, max_steps=400000)
+                    return None, "no value returned"
+                except FragReturn as ret:
+                    got = ret.value
+                except FragRaise:
+                    got = "raise"
+                except (Unfoldable, TypeError, IndexError, ValueError) as exc:
+                    return None, f"{b} bit(s): {exc}"
+                if extra == 0:
+                    if got == "raise":
+                        return VIOLATION, f"{b} bit(s) per symbol: a block of {L} bits per row ({g} full groups) is rejected"
+                    if not (isinstance(got, list) and len(got) == 2 and all(isinstance(r, list) and len(r) == g for r in got)):
+                        return VIOLATION, f"{b} bit(s) per symbol: {L} bits per row give {len(got[0]) if isinstance(got, list) and got and isinstance(got[0], list) else '?'} symbols per row instead of {g}"
+                elif got != "raise":
+                    return VIOLATION, f"{b} bit(s) per symbol: a block of {L} bits per row (not a multiple of {b}) is accepted and gives {len(got[0]) if isinstance(got, list) and got and isinstance(got[0], list) else '?'} symbols per row: bits are silently dropped or padded"
+                cases += 1
+    return OK, f"{cases} block lengths: symbols = bits / b along the last axis, lengths that are not a multiple of b raise"
+
+
 def rule_count(repo: Repo, rep: Report) -> int:
     n = 0
     mods = [(f"{MD}/psk.py", "QPSKModulator", "2"), (f"{MD}/psk.py", "PSKModulator", "self._bits_per_symbol"), (f"{MD}/qam.py", "QAMModulator", "self._bits_per_symbol"), (f"{MD}/pam.py", "PAMModulator", "self._bits_per_symbol"), (f"{MD}/dpsk.py", "DPSKModulator", "self._bits_per_symbol"), (f"{MD}/oqpsk.py", "OQPSKModulator", "2"), (f"{MD}/pi4qpsk.py", "Pi4QPSKModulator", "2")]
@@ -1036,6 +1123,13 @@ def rule_count(repo: Repo, rep: Report) -> int:
         rs = [s for s in ast.walk(fi.node) if isinstance(s, ast.Assign) and isinstance(s.targets[0], ast.Name) and s.targets[0].id == "x_reshaped"]
         n += 1
         m = None
+        if cname in ("PSKModulator", "QPSKModulator") and len(rs) != 1:
+            # another spelling of the grouping: decided by evaluation of the whole method
+            cst_, cd_ = modulator_count_evaluated(fi, [2] if cname == "QPSKModulator" else [1, 2, 3, 4])
+            if cst_ is not None:
+                rep.add("COUNT", fi, f"{cname}: forward evaluated on block lengths that are / are not multiples of the group size", cst_, cd_, node=fi.node)
+                n += 1
+                continue
         if len(rs) != 1:
             # the grouping under another name: the one reshape / view of the input `x` into (*lead, symbols, group)
             calls_ = [c_ for c_ in ast.walk(fi.node) if isinstance(c_, ast.Call) and isinstance(c_.func, ast.Attribute) and c_.func.attr in ("reshape", "view") and isinstance(c_.func.value, ast.Name) and c_.func.value.id == "x" and len(c_.args) == 3 and isinstance(c_.args[0], ast.Starred) and not c_.keywords]
@@ -1258,6 +1352,14 @@ def rule_memory(repo: Repo, rep: Report) -> int:
                     rv = "?"
             if isinstance(s, ast.Call) and isinstance(s.func, ast.Attribute) and s.func.attr == "zero_" and attr_chain(s.func.value) == f"self.{attr}":
                 rv = 0
+        if rv is None and iv is not None:
+            # nothing in reset_state touches the attribute: does it reach a method of this class that does?
+            own_calls = [c_ for c_ in ast.walk(rs.node) if isinstance(c_, ast.Call) and isinstance(c_.func, ast.Attribute) and ((isinstance(c_.func.value, ast.Name) and c_.func.value.id == "self") or unparse(c_.func.value) == "super()")]
+            mentions = any(isinstance(a_, ast.Attribute) and attr_chain(a_) == f"self.{attr}" for a_ in ast.walk(rs.node)) or any(isinstance(c_, ast.Call) and call_name(c_) in ("setattr", "getattr") for c_ in ast.walk(rs.node))
+            if not own_calls and not mentions:
+                others = sorted({unparse(c_.func) for c_ in ast.walk(rs.node) if isinstance(c_, ast.Call)})
+                rep.violation("MEMORY", rs, f"{cname}.reset_state never writes self.{attr}", f"forward advances self.{attr} (initial value {iv!r}) and reset_state does not restore it" + (f" (it only calls {', '.join(others)[:80]}, which acts on another object)" if others else "") + ": the alternation state survives a reset, so the next sequence starts on the wrong constellation", node=rs.node)
+                continue
         if rv is None or rv == "?" or iv is None:
             rep.undecided("MEMORY", rs, f"{cname}.reset_state", f"reset value {rv!r} / initial value {iv!r} not literal")
         else:
